@@ -106,7 +106,6 @@ OpenCase == /\ ~done /\ Top.k = "switch" /\ Len(Top.cases) < 2
                   /\ (h.default => (VIOLATING \/ Top.cases # <<>>))
                   /\ stk' = Append(stk, [Scope("case") EXCEPT !.cv = h])
             /\ UNCHANGED <<n, done>>
-Pascal(f) == f      \* field names are single lower-case words: the generated class prefix capitalises the first letter (done by the renderer)
 Close ==
   /\ ~done /\ Len(stk) > 1
   /\ LET s == Top
